@@ -84,6 +84,27 @@ func (g *Gen) Case(i int) Case {
 	if len(vars) > 0 {
 		hdr += "(" + strings.Join(vars, ", ") + ")"
 	}
+	// operation-level directives the schema declares for this kind of operation (they wrap the whole execution)
+	if kind != "subscription" && (g.profile == "c01" || g.profile == "c04" || g.profile == "c06") {
+		loc := ast.LocationQuery
+		if kind == "mutation" {
+			loc = ast.LocationMutation
+		}
+		var names []string
+		for n, d := range g.s.Directives {
+			for _, l := range d.Locations {
+				if l == loc && len(d.Arguments) == 0 {
+					names = append(names, n)
+				}
+			}
+		}
+		sort.Strings(names)
+		for _, n := range names {
+			if r.Below(3) == 0 {
+				hdr += " @" + n
+			}
+		}
+	}
 	q := hdr + " " + body + "\n" + strings.Join(b.frags, "\n")
 	rates := Rates{Err: 60, Nil: 80, DirErr: 100, DirBlock: 100, MaxLen: 3, ElemNil: 100, ErrAndVal: 200}
 	switch g.profile {
